@@ -406,6 +406,22 @@ impl<'tcx> D<'tcx> {
                 self.j.kstr("k", "discr");
                 self.j.key("p");
                 self.place(body, p);
+                let pty = p.ty(body, self.tcx).ty;
+                if let ty::Adt(adt, _) = pty.kind() {
+                    if adt.is_enum() {
+                        self.j.kstr("adt", &self.path(adt.did()));
+                        self.j.key("vars");
+                        self.j.arr();
+                        for (vi, var) in adt.variants().iter_enumerated() {
+                            let dv = adt.discriminant_for_variant(self.tcx, vi);
+                            self.j.arr();
+                            self.j.uint(dv.val);
+                            self.j.str(&var.name.to_string());
+                            self.j.end_arr();
+                        }
+                        self.j.end_arr();
+                    }
+                }
             }
             Rvalue::BinaryOp(op, ab) => {
                 self.j.kstr("k", "bin");
